@@ -64,3 +64,15 @@ End Engine.
 
 Definition is_plain (o : tout) : bool := match o with OPlain _ => true | _ => false end.
 Definition is_enc (o : tout) : bool := match o with OEncrypted => true | _ => false end.
+
+(* ---- which branch a connection takes: decided when it is accepted, by the configuration in force at that moment
+   (Server::incomingConnection looks at the configuration member; Server::setSslConfiguration replaces it) *)
+Inductive sop := SSetConfig (tls : bool) | SAccept.
+
+(* for every accepted connection: true = it goes through the TLS gate, false = plain pipeline *)
+Fixpoint srun (tls : bool) (ops : list sop) : list bool :=
+  match ops with
+  | [] => []
+  | SSetConfig b :: r => srun b r
+  | SAccept :: r => tls :: srun tls r
+  end.
